@@ -72,6 +72,12 @@ CLAIMED = {
             "where it is illegal is a clean error with nothing surfaced/queued; AUTH is rejected; a Halted engine rejects service/data/write-completion/open and keeps unresolved operations intact; extreme configuration values "
             "(any Duration as ack timeout / ping timeout / back-off period, keep-alive 1..65535) do not panic; decoder robustness as in C03.",
             "Outside the claim: panics reachable only through event orders across several handlers (CONNACK before the CONNECT was flushed, DESIGN.md D8), the packet dispatcher handle_packet as a whole, and the drivers.", "5 C11", TECH),
+    "C12": ("Decision and single-transition level only: compute_optional_state_transition against the rule 'a stop or close request is pursued at once unless a user DISCONNECT is still to be written; close is terminal' for "
+            "every current state x desired state x stop-option kind; for each kind of transition (attempt, success, failure, loss, rejection, stop or close requested while connecting / connected / waiting) transition_to_state emits exactly "
+            "its lifecycle events in order (attempt; one outcome: failure, or disconnection after a successful CONNACK; stopped), tells the engine about the opened/closed connection exactly once and ends in the right state; thorough tier: a stop "
+            "request carrying a DISCONNECT is still pursued when it arrives during the CONNECT/CONNACK handshake.",
+            "Engine entry point and listener broadcast are replaced by recorders. Outside the claim (and the larger part of the property): the tokio and threaded event loops that call these functions, every multi-transition history "
+            "('exactly one outcome before the next attempt' over a whole run, 'the loop never dies'), timing ('in bounded time once the transport reacts'), thread/task interleavings.", "5 C12", TECH),
     "C13": ("WebSocket adapter only: MessageCursor::read for every message length 0..6, cursor position and destination length 0..4 copies the next bytes in order and advances exactly; thorough tier: WebsocketStreamWrapper::read over "
             "two back-to-back messages with tungstenite's read stubbed by its contract.",
             "Outside the claim (declined): the tokio and threaded event loops, partial-write cursors, thread/task interleavings of submit/close, result delivery through channels -- Kani models neither threads nor the async runtime.", "5 C13", TECH),
@@ -107,8 +113,6 @@ CLAIMED = {
 }
 
 NOT_APPLICABLE = {
-    "C12": "about the tokio/threaded event loops and transition_to_state driving the engine entry points and Arc<dyn Fn> listeners; Kani models neither "
-           "tasks/threads nor those entry points within memory; only the pure transition-decision table is reachable, which does not decide the property",
 }
 
 PENDING_REASON = "check not built yet in this revision of /verif (designed in DESIGN.md section 5; harnesses are being added property by property)"
